@@ -259,6 +259,82 @@ def _insert_assertions(plan, r, p_assert):
     return plan
 
 
+PATTERNS = {
+    # name -> (families needed, number of roles)
+    'send_race': ('mbox', 3), 'trylock_race': ('mutex', 2), 'lock_inversion': ('mutex', 2), 'sem_timeout': ('sem', 2),
+    'sem_tokens': ('sem', 2), 'cv_notify': ('cv', 2), 'test_race': ('mbox', 2), 'iprobe_race': ('mbox', 2),
+    'waitany_race': ('mbox', 3), 'join_chain': ('actor', 2), 'random_pair': ('random', 2), 'barrier_round': ('barrier', 2),
+    'create_child': ('actor', 2)}
+
+
+def _pattern_ops(name, b, r):
+    """contention patterns: every role touches the same object, and at least one of them observes the order"""
+    o = b.objects
+    if name == 'send_race':
+        mb = r.choice(o['mbox'])
+        return [[['put', mb, 1.0]], [['put', mb, 1.0]], [['get', mb], ['get', mb]]]
+    if name == 'trylock_race':
+        m = r.choice(o['mutex'])[0]
+        return [[['lock', m]] + (b.inner(0, m) if r.chance(0.4) else []) + [['unlock', m]], [['trylock', m], ['unlock', m]]]
+    if name == 'lock_inversion':
+        ms = [x[0] for x in o['mutex']]
+        a, c = ms[0], ms[-1]
+        first = [['lock', a], ['lock', c], ['unlock', c], ['unlock', a]]
+        second = [['lock', c], ['lock', a], ['unlock', a], ['unlock', c]] if a != c and r.chance(0.7) else \
+            [['lock', a], ['unlock', a]]
+        return [first, second]
+    if name == 'sem_timeout':
+        return [[['acquire_timeout', 's0', 1.0]], [['release', 's0']]]
+    if name == 'sem_tokens':
+        return [[['acquire', 's0'], ['release', 's0']], [['acquire', 's0']] + ([['release', 's0']] if r.chance(0.7) else [])]
+    if name == 'cv_notify':
+        m = o['mutex'][0][0]
+        w = ['cvwait_for', 'c0', m, 1.0] if r.chance(0.75) else ['cvwait', 'c0', m]
+        n = ['notify_one', 'c0'] if r.chance(0.6) else ['notify_all', 'c0']
+        return [[['lock', m], w, ['unlock', m]], ([['lock', m], n, ['unlock', m]] if r.chance(0.4) else [n])]
+    if name == 'test_race':
+        mb = r.choice(o['mbox'])
+        s = b.slot()
+        return [[['get_async', s, mb], ['test', s], ['wait', s]], [['put', mb, 1.0]]]
+    if name == 'iprobe_race':
+        mb = r.choice(o['mbox'])
+        return [[['iprobe', mb, 'recv'], ['get', mb]], [['put', mb, 1.0]]]
+    if name == 'waitany_race':
+        mb, mb2 = o['mbox'][0], o['mbox'][-1]
+        s1, s2 = b.slot(), b.slot()
+        return [[['get_async', s1, mb], ['get_async', s2, mb2], ['wait_any', s1, s2], ['wait', s1], ['wait', s2]],
+                [['put', mb, 1.0]], [['put', mb2, 1.0]]]
+    if name == 'join_chain':
+        return [[['join', '@1']], [['sleep', 1.0]] if r.chance(0.3) else []]
+    if name == 'random_pair':
+        return [[['mc_random', 0, 1]], [['mc_random', 0, r.randint(1, 2)]]]
+    if name == 'barrier_round':
+        return [[['barrier', 'b0']], [['barrier', 'b0']]]
+    if name == 'create_child':
+        if not b.templates:
+            b.templates.append('t0')
+        return [[['create', 't0']] + ([['join', 't0']] if r.chance(0.5) else []), []]
+    return [[], []]
+
+
+def _pattern_program(r, b, fams, nact):
+    """1-3 contention patterns laid over the actors: an actor can play a role in several of them, in sequence"""
+    names = [n for n in sorted(PATTERNS) if PATTERNS[n][0] in fams and PATTERNS[n][1] <= nact and
+             (n != 'lock_inversion' or len(b.objects.get('mutex', [])) > 1 or True)]
+    ops = [[] for _ in range(nact)]
+    if not names:
+        return None
+    for _ in range(r.randint(1, 3)):
+        n = r.choice(names)
+        roles = _pattern_ops(n, b, r)
+        who = r.sample(range(nact), len(roles))
+        for ai, rops in zip(who, roles):
+            for op in rops:
+                op = [('a%d' % who[int(x[1:])] if isinstance(x, str) and x.startswith('@') else x) for x in op]
+                ops[ai].append(op)
+    return ops
+
+
 def program(r, seed, max_bound, want_assert=None, families=None, min_bound=2, balance=True):
     """-> plan (without walks / mc configs). Rejection sampling on the size bound, deterministic in r."""
     best = None
@@ -269,10 +345,16 @@ def program(r, seed, max_bound, want_assert=None, families=None, min_bound=2, ba
         plan = gen.base_plan(seed, nhosts=1, rng=r, factory=r.choice(['raw', 'raw', 'boost']))
         plan['objects'] = b.objects_for()
         acts = []
+        pops = _pattern_program(r, b, fams, nact) if r.chance(0.6) else None
         for ai in range(nact):
             ops = []
-            for _ in range(r.randint(1, 3)):
-                ops += b.block(r.choice(fams), ai)
+            if pops is not None:
+                ops = pops[ai]
+                if not ops or r.chance(0.2):
+                    ops = ops + b.block(r.choice(fams), ai)
+            else:
+                for _ in range(r.randint(1, 3)):
+                    ops += b.block(r.choice(fams), ai)
             acts.append(dict(id='a%d' % ai, host='h0', ops=ops[:8]))
         for t in b.templates:
             ops = []
